@@ -249,3 +249,66 @@ def cache2_cache_identity(P, R, L, rule="CACHE-2"):
         R.check(rule, TCACHE + "get|asks-the-numbered-table-for-the-given-key", ok, where(b),
                 "find_table(file_number) and Table::get(.., key) on the table found", "ok" if ok else "find_table=%s table.get=%s" % (ft, tg))
     R.floor(rule, "cache identity sites checked", n, 9)
+
+
+# ------------------------------------------------------------------------------------------- ERR-6 a fallible result is not answered with a panic
+# callee (stripped resolved or declared name) -> (caller prefix or "", reason); confirmed by reading every unwrap / expect of a Result on the reviewed tree
+ASSERT_OK = [
+    ("std::fmt::Write::write_fmt", "", "formatting into a String cannot fail"),
+    ("integer_encoding::VarIntWriter>::write_varint", "impl std::convert::From<&", "the writer is a Vec<u8> (serialisation into memory)"),
+    ("utils::io::WriteHelpers>::write_length_prefixed_slice", "impl std::convert::From<&", "the writer is a Vec<u8> (serialisation into memory)"),
+    ("std::io::impls::write_all", "impl std::convert::From<&", "the writer is a Vec<u8> (serialisation into memory)"),
+    ("std::io::Write::write_all", "impl std::convert::From<&", "the writer is a Vec<u8> (serialisation into memory)"),
+    ("<key::InternalKey as std::convert::TryFrom<std::vec::Vec<u8>>>::try_from", "tables::", "re-parses bytes the builder serialised from an InternalKey itself"),
+    ("snap::write::FrameEncoder::into_inner", "tables::table_builder::TableBuilder::write_block", "the encoder's sink is a Vec<u8>"),
+    ("iterator::RainDbIterator::seek", "<memtable::SkipListMemTable as memtable::MemTable>::get", "the memtable iterator's seek has no failing path"),
+    ("std::env::current_dir", "<options::DbOptions as std::default::Default>::default", "default options; no database is open yet"),
+    ("std::sync::mpsc::Receiver::recv", "compaction::worker::CompactionWorker::new", "the sender lives as long as the worker (stop is a message)"),
+    ("std::sync::mpsc::SyncSender::send", "compaction::worker::CompactionWorker::schedule_task", "the receiver lives until the worker was told to stop"),
+    ("<key::Operation as std::convert::TryFrom<u8>>::try_from", "db::DB::force_level_compaction", "conversion of the constant 0"),
+    ("tempfile::TempDir::new", "fs::fs_disk::TmpFileSystem::new", "test file system constructor; no database is open yet"),
+    ("tempfile::TempDir::new_in", "fs::fs_disk::TmpFileSystem::new", "test file system constructor; no database is open yet"),
+]
+PANICKING = {"std::result::Result::unwrap", "std::result::Result::expect"}
+
+
+def err6_no_panic_on_a_fallible_result(P, R, L, rule="ERR-6"):
+    """ERR-1 accepts `unwrap` / `expect` as "not swallowed".  For the storage layer that is not good enough: a failed append, read,
+    rename or parse answered with a panic is neither an error returned to the caller nor an effect taken - on the compaction thread
+    it is a dead worker with the scheduled flag set (every waiter hangs).  Every Result that is consumed ONLY by unwrap / expect
+    must come from one of the callees confirmed infallible by reading (table ASSERT_OK: in-memory serialisation, formatting,
+    channel ends, constructors that run before a database is open)."""
+    from .. import err
+    n = sites = 0
+    for p, b in sorted(P.bodies_as_written.items()):
+        for cs in err.result_sites(b):
+            if cs.name in (err.TRY_BRANCH, err.FROM_RESIDUAL) or cs.name in err.ALIASING or cs.name in err.CHAINING:
+                continue
+            sites += 1
+            A = err.forward_aliases(b, cs.dest["l"]) if not cs.dest["p"] else set()
+            if not A:
+                continue
+            pan = [c for c in b.calls() if not b.is_cleanup(c.bb) and c.name in PANICKING and c.args and
+                   c.args[0].get("k") in ("copy", "move") and c.args[0]["pl"]["l"] in A and not c.args[0]["pl"]["p"]]
+            if not pan:
+                # through one chaining adapter (`.map_err(..).unwrap()`)
+                for c in b.calls():
+                    if not b.is_cleanup(c.bb) and c.name in err.CHAINING and c.args and c.args[0].get("k") in ("copy", "move") and \
+                            c.args[0]["pl"]["l"] in A and not c.dest["p"]:
+                        A2 = err.forward_aliases(b, c.dest["l"])
+                        pan += [x for x in b.calls() if not b.is_cleanup(x.bb) and x.name in PANICKING and x.args and
+                                x.args[0].get("k") in ("copy", "move") and x.args[0]["pl"]["l"] in A2 and not x.args[0]["pl"]["p"]]
+            if not pan:
+                continue
+            # a result that is also tested / propagated (`if r.is_err() { return .. } r.unwrap()`) is handled: the panic is unreachable
+            if err.result_tests(b, cs.dest["l"]):
+                continue
+            n += 1
+            R.analysed(b)
+            nm, dn = cs.name or "", cs.declared_name or ""
+            row = [r for r in ASSERT_OK if (r[0] in nm or r[0] in dn) and r[1] in p]
+            R.check(rule, "%s|callee=%s|answered-with-a-panic" % (p, dn or nm), bool(row), cs.where(),
+                    "a Result consumed only by unwrap / expect comes from a callee confirmed infallible (table ASSERT_OK)",
+                    ("ok: " + row[0][2]) if row else "%s can fail; its Err panics at line %s" % (nm, pan[0].t.get("line")))
+    R.call_sites += sites
+    R.floor(rule, "unwrap / expect sites of Results examined", n, 30)
